@@ -165,10 +165,19 @@ def correspond(ctx):
                 o = 'reject ' + type(e).__name__
                 if any(list(mats[q]) != before[q] for q in mats):
                     ctx.violation('c17:rejected-call-modified-arguments:' + name, 'blas.%s raised %s but modified an argument' % (name, type(e).__name__), {'line': line})
-            lines.append(line); obs.append(o); meta.append((name, kw.get('k')))
+            lines.append(line); obs.append(o); meta.append((name, dict(kw)))
     out = vlib.drive('C17', lines)
     dis = 0
-    for l, o, m_, (name, kval) in zip(lines, obs, out, meta):
+    def bad_ld(name, kw):
+        """a leading dimension of A / B below what BLAS requires (the wrappers do not look at it when k = 0)"""
+        k = kw.get('k', 0); n = kw.get('n', 0); m = kw.get('m', 0)
+        ld = lambda q: kw.get(q) or 10**9          # 0 / omitted: the default (the row count of the buffer), always large enough here
+        if name == 'gemm':
+            return ld('ldA') < max(1, m if kw.get('transA') == 'N' else k) or ld('ldB') < max(1, k if kw.get('transB') == 'N' else n)
+        tr = kw.get('trans', 'N')
+        return ld('ldA') < max(1, n if tr == 'N' else k) or ('ldB' in kw and ld('ldB') < max(1, n if tr == 'N' else k))
+    for l, o, m_, (name, kwm) in zip(lines, obs, out, meta):
+        kval = kwm.get('k')
         ok = (o == m_)
         if not ok and name == 'nrm2' and ' val2' in o and ' val2' in m_:
             a = float(o.split('val2~')[1]); b = float(Fraction(m_.split('val2=')[1]))
@@ -177,7 +186,7 @@ def correspond(ctx):
             ok = o.split(' val')[0] == m_ and o.split('=')[-1].split('~')[-1] in ('0', '0.0')      # n = 0: the wrapper returns 0
         if not ok:
             dis += 1
-            if name in ('gemm', 'syrk', 'herk', 'syr2k', 'her2k') and kval == 0 and o.startswith('ok') and m_.startswith('ok'):
+            if name in ('gemm', 'syrk', 'herk', 'syr2k', 'her2k') and kval == 0 and o.startswith('ok') and m_.startswith('ok') and bad_ld(name, kwm):
                 # family: with k = 0 the wrapper skips the leading-dimension checks, the BLAS routine then rejects the call (xerbla) and
                 # C is not scaled by beta
                 ctx.violation('c17:k0-leading-dimension-unchecked:' + name, 'blas.%s with k=0 and an invalid leading dimension is accepted; BLAS rejects it (xerbla message) and C is not scaled by beta' % name, {'line': l, 'impl': o, 'model': m_})
